@@ -110,6 +110,7 @@ func fmtWorker(w *vf.Worker) {
 	strSet := []string{"abc", "", "é日", "a b", "B"}
 	strFormats := []string{"%s", "_%s", "X%sX", "[%s]", "%5s", "%-5s", "%.2s", "%5.1s", "%-3sX", "%08s"}
 	if doExtra {
+		reqs = append(reqs, map[string]any{"k": "fmt", "fmt": "%f", "vals": vals})
 		reqs = append(reqs, map[string]any{"k": "hexfmt", "vals": fmtInts})
 		var hs []string
 		for _, s := range strSet {
@@ -278,11 +279,38 @@ func fmtWorker(w *vf.Worker) {
 	if doExtra {
 		w.Begin(extraIdx)
 		base := len(mine)
-		var hw []string
+		var hw, dw []string
+		if !mustUnmarshal(w, ans[base], &dw) {
+			return
+		}
+		base++
 		if !mustUnmarshal(w, ans[base], &hw) {
 			return
 		}
 		ck := &checker{w: w, family: "fmt"}
+		// format-values without options: "%d" for ints, "%f" for floats, "%s" for strings
+		{
+			rec := ""
+			for vi, v := range vals[:nI+nF] {
+				rec += fmt.Sprintf("n%d=%s;", vi, v[1])
+			}
+			rec += "s=abc\n"
+			r := vf.RunMlr([]string{"--ifs", ";", "--ofs", ";", "format-values"}, vf.MlrOpts{Stdin: &rec})
+			fields := map[string]string{}
+			for _, kv := range strings.Split(strings.TrimSuffix(r.Stdout, "\n"), ";") {
+				if j := strings.IndexByte(kv, '='); j >= 0 {
+					fields[kv[:j]] = kv[j+1:]
+				}
+			}
+			for vi, v := range vals[:nI+nF] {
+				want := "s:" + hx(v[1])
+				if v[0] == "f" {
+					want = dw[vi]
+				}
+				ck.cmpRendered("printf[format-values defaults]", len(v[1]), "format-values on "+v[1], "format-values", "s:"+hx(fields[fmt.Sprintf("n%d", vi)]), want, map[string]any{"value": v[1]})
+			}
+			ck.cmpRendered("printf[format-values defaults]", 3, "format-values on abc", "format-values", "s:"+hx(fields["s"]), "s:"+hx("abc"), nil)
+		}
 		for vi, v := range fmtInts {
 			got, pn := call(func() *mlrval.Mlrval { return bifs.BIF_hexfmt(mlrval.FromInferredType(v)) })
 			ck.cmp("hexfmt", len(v), fmt.Sprintf("hexfmt(%s)", v), "hexfmt", got, pn, hw[vi], map[string]any{"value": v})
